@@ -40,6 +40,8 @@ def run_unit(uid, tier, only=None):
         if only in (None, "native"): jobs.append(("native", n))
     for k in mf.get("kani", []):
         if only in (None, "kani"): jobs.append(("kani", k))
+    for sc in mf.get("scan", []):
+        if only in (None, "scan"): jobs.append(("scan", sc))
     results = []
     for kind, spec in jobs:
         if kind == "verus":
@@ -50,6 +52,9 @@ def run_unit(uid, tier, only=None):
                 raise Undecided(uid, "vacuity guard: verus reports %d obligations < committed minimum %d" % (r["obligations"], minv))
         elif kind == "native":
             r = B.run_native(uid, ud, spec, tier)
+        elif kind == "scan":
+            from vf.scans import run_scan
+            r = run_scan(uid, spec)
         else:
             r = B.run_kani(uid, ud, spec, tier)
         allowed = mf.get("trusted_allow", [])
@@ -83,13 +88,22 @@ def check(pid, tier):
     os.makedirs(EVID_DIR, exist_ok=True); os.makedirs(REPLAY_DIR, exist_ok=True)
     seed = int(os.environ.get("VERIF_SEED", "0") or 0)
     results, undecided = [], []
-    units = prop["units"]
+    unit_specs = [u if isinstance(u, dict) else {"unit": u} for u in prop["units"]]
+    units = [u["unit"] for u in unit_specs]
+    filt = {u["unit"]: u for u in unit_specs}
     with cf.ThreadPoolExecutor(max_workers=min(6, len(units))) as ex:
         futs = {ex.submit(run_unit, u, tier): u for u in units}
         for f in cf.as_completed(futs):
             u = futs[f]
             try:
-                results.extend(f.result())
+                for r in f.result():
+                    # a property may use only part of a unit's obligations
+                    only, excl = filt[u].get("only"), filt[u].get("exclude")
+                    keep = lambda name: (not only or re.search(only, name)) and not (excl and re.search(excl, name))
+                    r["failed"] = [x for x in r["failed"] if keep(x["obligation"])]
+                    if "b_obligations" in r: r["b_obligations"] = [x for x in r["b_obligations"] if keep(x)]
+                    if only or excl: r["obligation_filter"] = {"only": only, "exclude": excl}
+                    results.append(r)
             except Undecided as e:
                 undecided.append((u, e.reason))
             except Exception as e:
@@ -157,6 +171,7 @@ def check(pid, tier):
     nV = sum(r.get("discharged", 0) for r in results if r["backend"] in ("verus", "kani"))
     nO = sum(r.get("obligations", 0) for r in results if r["backend"] in ("verus", "kani"))
     nB = sum(r.get("evaluations", 0) for r in results if r["backend"] == "native")
+    units = [str(u) for u in units]
     print("%s tier=%s units=%s proof-obligations=%d/%d bounded-cases=%d violations=%d known=%d undecided=%d wall=%.1fs" %
           (pid, tier, ",".join(units), nV, nO, nB, len(violations), len(known_hits), len(undecided), time.time() - t0))
     if violations: return 1
@@ -176,6 +191,7 @@ def _same_fn(a, b):
 def build_evidence(pid, prop, tier, seed, results, undecided, violations, known_hits, wall):
     V = [r for r in results if r["backend"] in ("verus", "kani")]
     N = [r for r in results if r["backend"] == "native"]
+    S = [r for r in results if r["backend"] == "scan"]
     obligations = sum(r["obligations"] for r in V)
     discharged = sum(r["discharged"] for r in V)
     trusted = []
@@ -208,7 +224,8 @@ def build_evidence(pid, prop, tier, seed, results, undecided, violations, known_
         "clauses": prop["clauses"],
         "units": [{
             "unit": r["unit"], "title": r.get("title"), "backend": r["backend"],
-            "label": {"verus": "proved (unbounded)", "kani": "proved (complete, loop-free full-domain)", "native": "bounded (exhaustive within stated bound; NOT counted as proved)"}[r["backend"]],
+            "label": {"verus": "proved (unbounded)", "kani": "proved (complete, loop-free full-domain)", "native": "bounded (exhaustive within stated bound; NOT counted as proved)", "scan": "mechanical frame scan (token level; not a proof obligation)"}[r["backend"]],
+            "scan": r.get("scan"), "scanned": r.get("scanned"), "obligation_filter": r.get("obligation_filter"),
             "obligations": r.get("obligations"), "discharged": r.get("discharged"),
             "evaluations": r.get("evaluations"), "distinct_nontrivial": r.get("distinct_nontrivial"), "bound": r.get("bound"),
             "b_obligations": r.get("b_obligations"), "harnesses": r.get("harnesses"), "contract_clauses": r.get("contract_clauses"),
@@ -217,6 +234,7 @@ def build_evidence(pid, prop, tier, seed, results, undecided, violations, known_
             "per_function": r.get("functions"), "wall_s": r["wall_s"], "solver_time_s": r.get("solver_time_s"),
             "failed": [f["obligation"] for f in r["failed"]],
         } for r in results],
+        "frame_scans": [{"scan": r["scan"], "sites": r["scan_sites"], "rule": r["rule"], "hits": len(r["failed"])} for r in S],
         "extraction_drops": drops,
         "undecided": [{"unit": u, "reason": reason[:500]} for u, reason in undecided],
         "known_findings_hit": [{"obligation": fl["obligation"], "input": fl.get("input")} for _, fl, _ in known_hits],
